@@ -61,6 +61,18 @@ def writesT (facts : List LockFact) (f : LockFact) : Bool :=
 /-- methods that run before the cache is shared (registration): exempt -/
 def exempt : List String := ["SetDelCallBackFn"]
 
+def exportedName (name : String) : Bool := match name.toList.head? with | some c => c.isUpper | none => false
+
+/-- a lock-free unexported helper is safe when every method that calls it either holds the exclusive
+lock or is itself a safe lock-free unexported helper (any chain of helpers, bounded by the number of
+methods) -/
+def helperSafe (facts : List LockFact) : Nat → String → Bool
+  | 0, _ => false
+  | fuel + 1, name =>
+    facts.all fun g =>
+      !(g.2.2.2.2.contains name) || g.1 == name || g.2.1 == "excl" ||
+        (g.2.1 == "none" && !exportedName g.1 && helperSafe facts fuel g.1)
+
 /-- every exported method that writes holds the exclusive lock for its whole body; every one that
 only reads holds at least the shared lock; an unexported helper without a lock is only called from
 methods that hold the exclusive lock; no method takes the lock twice (directly or through a callee:
@@ -78,8 +90,7 @@ def lockOK (facts : List LockFact) : Bool :=
     else
       -- unexported helper: it touches no shared state at all (e.g. a wrapper around the mutex itself), or
       -- every caller holds the exclusive lock
-      (!f.2.2.1 && !f.2.2.2.1) || lock == "excl" ||
-        facts.all fun g => !(g.2.2.2.2.contains name) || g.2.1 == "excl" || g.1 == name
+      (!f.2.2.1 && !f.2.2.2.1) || lock == "excl" || helperSafe facts facts.length name
 
 /-! ### package-level state -/
 
